@@ -91,6 +91,11 @@ Definition wb_L : tree := wE [97] None None [wE [97] None None []].
 Definition wb_R : tree := wE [99] None None [Node (Lab (TElem [97]) [([107],[49])] None None) []].
 Definition wb_c : cfg := Cfg 0 true [[97];[99]] [].
 
+Definition wb_T : xtree := Eval vm_compute in
+  (let '(s, L', R') := prepare wb_c wb_L wb_R in
+   match xml_format wb_c w_o [] s [GA n_RenameNode [PStr [47;97;91;49;93]; PStr [99]]; w_upd [47;99;91;49;93] (Some [57352])] L'
+   with FOk T => T | FErr _ => L' end).
+
 Theorem C08_total_clean_refuted :
   (exists c L R gs, let '(s, L', R') := prepare c L R in
      PlaceholderUndo.npua (remove_comments L) = true /\ PlaceholderUndo.npua (remove_comments R) = true /\
@@ -105,7 +110,7 @@ Proof.
   - exists wa_c, wa_L, wa_R, [w_upd [47;112;91;49;93] (Some [97; 57354; 120; 57353; 99; 100])]. vm_compute. auto.
   - exists wb_c, wb_L, wb_R,
       [GA n_RenameNode [PStr [47;97;91;49;93]; PStr [99]]; w_upd [47;99;91;49;93] (Some [57352])].
-    eexists. vm_compute. repeat split.
+    exists wb_T. vm_compute. repeat split.
 Qed.
 Print Assumptions C08_total_clean_refuted.
 
@@ -153,16 +158,23 @@ Definition exS : list iact :=
    IInsert 0%nat [101] 0%nat 3%nat; IDelete 3%nat].
 Definition exC : cfg := Cfg 0 false [] [].
 
+Definition ex_T (c : cfg) : xtree :=
+  match xml_format c w_o [] Placeholder.ph_init
+          (match render_script (fun _ => None) 0%nat exL exS with Some gs => gs | None => [] end)
+          (remove_comments (doc_tree exL 0%nat)) with FOk T => T | FErr _ => XNode [] [] None [] [] end.
+Definition ex_T1 : xtree := Eval vm_compute in ex_T exC.
+Definition ex_T2 : xtree := Eval vm_compute in ex_T (Cfg 0 true [] []).
+
 Example C08_example :
   exists T, xml_format exC w_o [] Placeholder.ph_init
               (match render_script (fun _ => None) 0%nat exL exS with Some gs => gs | None => [] end)
               (remove_comments (doc_tree exL 0%nat)) = FOk T /\ out_clean T = true.
-Proof. eexists. vm_compute. split; reflexivity. Qed.
+Proof. exists ex_T1. vm_compute. split; reflexivity. Qed.
 Print Assumptions C08_example.
 
 Example C08_example_replace :
   exists T, xml_format (Cfg 0 true [] []) w_o [] Placeholder.ph_init
               (match render_script (fun _ => None) 0%nat exL exS with Some gs => gs | None => [] end)
               (remove_comments (doc_tree exL 0%nat)) = FOk T /\ out_clean T = true.
-Proof. eexists. vm_compute. split; reflexivity. Qed.
+Proof. exists ex_T2. vm_compute. split; reflexivity. Qed.
 Print Assumptions C08_example_replace.
